@@ -35,6 +35,24 @@ def anchored_files(prop: str) -> list[str]:
     return []
 
 
+def lint_files(prop: str, idx: Index) -> list[str]:
+    """Files looked at by the baseline-free lints (A1, I1): the anchored files, the files the property's rule module
+    names, and the implementations of a hook the anchored code calls back (an anchored *directory* is not expanded)."""
+    out = list(anchored_files(prop))
+    rm = VERIF / "xsa" / "rules" / f"{prop.lower()}.py"
+    if rm.exists():
+        out += re.findall(r'"(xdsl/[\w/]+\.py)"', rm.read_text())
+    out += HOOK_IMPLEMENTATIONS.get(prop, [])
+    seen: set[str] = set()
+    return [f for f in out if f in idx.by_relpath and not (f in seen or seen.add(f))]
+
+
+# implementations of a callback defined in the anchored code (found with grep, one line of reason each)
+HOOK_IMPLEMENTATIONS = {
+    "C19": ["xdsl/dialects/riscv_scf.py", "xdsl/dialects/x86_scf.py", "xdsl/dialects/riscv_snitch.py"],  # override RegisterAllocatableOperation.allocate_registers
+}
+
+
 def site_id(relpath: str, qualname: str, fn: ast.AST, s: MemoSite) -> tuple[str, str, str]:
     if s.kind == "decorator":
         return (relpath, qualname, "@cache")
@@ -138,3 +156,6 @@ def check(idx: Index, rep: Report, prop: str) -> None:
     from . import alias_rule  # the second history-dependence lint shares the entry point (check.py, runall.py, selftest)
 
     rep.run(alias_rule.check, idx, rep, prop)
+    from . import iter_rule
+
+    rep.run(iter_rule.check, idx, rep, prop)
